@@ -268,6 +268,12 @@ var c06PerInput = []string{
 }
 
 var c06Hand = []string{
+	// folds whose accumulator starts from an empty value and is then extended: operands (literals of the Code, parts of the shared input) must stay as they are
+	"[{}, {\"kind\": \"user\"}, .] | add?", "[{}, .a, {\"z\": 1}] | add?", "[{}, {}, {\"k\": 1}, {\"a\": 2}] | add", "[null, {\"k\": 1}, .a] | add?", "[[], [1], .c] | add?", "[\"\", \"a\", \"b\"] | add", "[{}, .a, .a] | add?", "{} + {\"k\": 1} + {\"l\": 2}", "[{}, {\"k\": {\"m\": 1}}, {\"k\": {\"n\": 2}}] | add",
+	"reduce ({}, {\"k\": 1}, {\"l\": 2}) as $o ({}; . + $o)", "[{}, {\"k\": 1}] | add | .x = 1", "{} * {\"k\": {\"m\": 1}} * {\"k\": {\"n\": 2}}",
+	// one pattern under rejected and accepted flag sets: what is kept for the pattern must not decide whether the flags are looked at
+	"\"abc\" | [(try test(\"b\"; \"x\") catch \"E\"), test(\"b\"), (try test(\"b\"; \"gx\") catch \"E\"), test(\"b\"; \"g\"), (try test(\"b\"; \"n\") catch \"E\")]", "\"aXb\" | [(try [match(\"x\"; \"ix\")] catch \"E\"), [match(\"x\"; \"i\").offset], (try sub(\"x\"; \"_\"; \"q\") catch \"E\"), sub(\"x\"; \"_\"; \"i\")]",
+	"[.. | strings | (try test(\"a\"; \"z\") catch \"E\"), test(\"a\")]",
 	// tables a Code fills on first use
 	"builtins | length", "[builtins] | .[0] | sort == .", "builtins | map(select(startswith(\"a\"))) | length", "[builtins, builtins] | .[0] == .[1]", "[.. | strings | test(\"a\"), test(\"b\"; \"i\"), test(\"c\"; \"g\")]", "[limit(5; builtins[])]", "env | type", "$ENV | type",
 	"[getpath([\"a\", \"b\"]), getpath([\"c\", 1])]", "[first(range(10)), last(range(10)), nth(3; range(10)), limit(2; range(10))]", "[splits(\"a\")?, ascii_downcase?, ltrimstr(\"a\")?, @base64?, @uri?, @html?, @sh?, @csv?, @tsv?, @json, @text]", "todate?, (now | type)", "input_line_number",
